@@ -425,7 +425,8 @@ def monitor(rp, script, out, tasks, crash, props):
                             viol.append(('C02', tag + 'wrong-core-count', 'task %d: cores %s, requested %d' % (uid, x[1], cps)))
                         g = r['gpr']
                         if g >= U:
-                            ok = len(x[2]) == g // U and len(set(i for i, _ in x[2])) == len(x[2]) and all(sh == U for _, sh in x[2])
+                            # (an amount above one GPU that is not whole cannot be granted as asked: g % U != 0 never fits)
+                            ok = g % U == 0 and len(x[2]) == g // U and len(set(i for i, _ in x[2])) == len(x[2]) and all(sh == U for _, sh in x[2])
                         elif g > 0:
                             ok = len(x[2]) == 1 and x[2][0][1] == g
                         else:
